@@ -5,6 +5,7 @@
 
    This module is the GENERATOR of the quantifier "all histories": a run is a sequence of
    operations on one state, each Run(ev) / Abort(ev, after k iterations, then reset_state) /
+   Throw(ev, an exception inside the k-th step, then reset_state) /
    WarmUp, under a configuration.  TLC enumerates every history up to MaxLen over Events x
    AbortPoints x Configs and prints each maximal one as JSON (tools/checks/c06.py collects
    them and the harness executes every one on the real Stepper).
@@ -17,9 +18,10 @@
    initialisation), reset_state after an abort (queue, statuses, counters). *)
 EXTENDS Integers, Sequences, FiniteSets, TLC, Json
 
-CONSTANTS Events, AbortPoints, MaxLen, Configs
+CONSTANTS Events, AbortPoints, ThrowPoints, MaxLen, Configs
 
-Ops == [op : {"run"}, ev : Events] \cup [op : {"abort"}, ev : Events, k : AbortPoints] \cup [op : {"warmup"}]
+Ops == [op : {"run"}, ev : Events] \cup [op : {"abort"}, ev : Events, k : AbortPoints]
+       \cup [op : {"throw"}, ev : Events, k : ThrowPoints] \cup [op : {"warmup"}]
 
 VARIABLES hist,      \* operations executed so far
           cfg,       \* configuration of this state
@@ -48,17 +50,28 @@ Abort(e, k) ==
   /\ rng' = e
   /\ slots' = "dirty" /\ queue' = "empty"   \* reset_state(): statuses inactive, counters and queue cleared
   /\ UNCHANGED <<cfg, mid>>
+\* Throw(e, k): a user step action throws INSIDE the k-th step of event e (k = 1: inside the very step that
+\* initialises the primaries, when the end-of-step counters still describe the state before the event);
+\* the driver catches the exception and calls reset_state().  Same abstract effect as Abort -- which is
+\* exactly the claim: reset_state must not depend on where inside a step the event was abandoned.
+Throw(e, k) ==
+  /\ Len(hist) < MaxLen
+  /\ hist' = Append(hist, [op |-> "throw", ev |-> e, k |-> k])
+  /\ rng' = e
+  /\ slots' = "dirty" /\ queue' = "empty"
+  /\ UNCHANGED <<cfg, mid>>
 \* Stepper::warm_up is only legal while the "active tracks at the start of the last step" counter
 \* is zero: on a fresh state or after reset_state (it stays non-zero after a completed event)
 WarmUp ==
   /\ Len(hist) < MaxLen
   /\ LET lastRun == {i \in DOMAIN hist : hist[i].op = "run"}
-         lastAbort == {i \in DOMAIN hist : hist[i].op = "abort"}
+         lastAbort == {i \in DOMAIN hist : hist[i].op \in {"abort", "throw"}}
      IN \A i \in lastRun : \E j \in lastAbort : j > i
   /\ hist' = Append(hist, [op |-> "warmup"])
   /\ UNCHANGED <<cfg, rng, slots, queue, mid>>
 
-Next == (\E e \in Events : Run(e)) \/ (\E e \in Events, k \in AbortPoints : Abort(e, k)) \/ WarmUp
+Next == (\E e \in Events : Run(e)) \/ (\E e \in Events, k \in AbortPoints : Abort(e, k))
+        \/ (\E e \in Events, k \in ThrowPoints : Throw(e, k)) \/ WarmUp
 Spec == Init /\ [][Next]_vars
 
 \* whenever an operation could start, the queue is empty (nothing of another event is pending)
